@@ -13,7 +13,7 @@ from .common import L
 
 ID = "C04"
 RUNS = {"quick": 20_000, "thorough": 400_000}
-BUDGET_S = {"quick": 60, "thorough": 800}
+BUDGET_S = {"quick": 120, "thorough": 800}
 CHUNK = 250
 RULE = ("each run draws (domain, problem) and a plan of 0-10 steps built by a reference random walk with inapplicable "
         "steps injected at tape-chosen positions, delivered as a plan file (possibly with a read fault) or as an "
